@@ -433,6 +433,63 @@ def _ob_error_mapping(n: int, k: int, how: int) -> bool:
 
 
 # ---------------------------------------------------------------------------
+# 7. the shape of what is read: the selection's shape; only a scalar becomes (1,)
+# ---------------------------------------------------------------------------
+class _DSZ(_DS):
+    def read_data(self, slc=None):
+        import numpy as np
+        self.owner.log.append(("r", slc))
+        z = np.zeros(self.owner.shape)
+        return z if slc is None else z[slc]
+
+
+class _H5Z(_H5):
+    def get_dataset(self, name):
+        return _DSZ(self.owner)
+
+
+_SHAPES7 = [(1,), (1, 1), (2, 1), (1, 1, 1), (3, 2), (4,)]
+
+
+def _ob_read_shape(si: int, ei: int, k: int) -> bool:
+    """
+    pre: 0 <= si < 6 and 0 <= ei < 6
+    pre: -1 <= k <= 1
+    post: __return__
+    """
+    import numpy as np
+    from nixio.data_array import DataArray
+    shape = _SHAPES7[0]
+    for j in range(len(_SHAPES7)):
+        if si == j:
+            shape = _SHAPES7[j]
+    da = DataArray.__new__(DataArray)
+    par = _Parent(shape)
+    par._h5group = _H5Z(par)
+    da._h5group = par._h5group
+    R = len(shape)
+    exprs = [slice(None), Ellipsis, (slice(0, 1),) * R, (0,) * R, (slice(None),) * (R - 1) + (k,),
+             (k,) + (slice(0, 1),) * (R - 1)]
+    expr = exprs[0]
+    for j in range(len(exprs)):
+        if ei == j:
+            expr = exprs[j]
+    ref = np.zeros(shape)
+    try:
+        want = ref[expr]
+    except IndexError:
+        want = None
+    try:
+        got = da[expr]
+    except IndexError:
+        return want is None
+    if want is None:
+        return False
+    wshape = want.shape if want.shape != () else (1,)
+    return tuple(np.asarray(got).shape) == tuple(wshape)
+
+
+# ---------------------------------------------------------------------------
 # real-stack replay: through the public API on a real HDF5 file, against NumPy
 # ---------------------------------------------------------------------------
 def _real_case(shape, pos, ext, expr, write):
@@ -659,6 +716,8 @@ OBLIGATIONS = [
     Ob("write_same_as_read", _ob_write_same_as_read, timeout=200,
        functions=[_DV + "_write_data", _DV + "_read_data", _DV + "_transform_coordinates"],
        replay=_replay_write),
+    Ob("read_shape_rule", _ob_read_shape, timeout=120,
+       functions=["nixio.data_array.DataArray._read_data", "nixio.data_set.DataSet.__getitem__"]),
     Ob("h5py_refusal_is_indexerror", _ob_error_mapping, timeout=60,
        functions=["nixio.hdf5.h5dataset.H5DataSet.read_data"]),
 ]
